@@ -250,7 +250,7 @@ def run_jobs(jobs, use_model: bool, max_workers: int = 12):
 def merge(ctx, results, tag):
     for r in results:
         if r.get("selfcheck"):
-            raise common.InfraError("harness self-check failed (impl/selexpr.py vs impl/expr_oracle.py): " + r["selfcheck"][0])
+            raise common.InfraError("harness self-check failed (selexpr.py vs expr_oracle.py, or an after-project child): " + r["selfcheck"][0])
         ctx.evaluations += r["n"]
         hx = r["hashes"]
         for i in range(0, len(hx), 16):
@@ -280,6 +280,132 @@ def exhaustive_jobs(symbols, maxlen, target_jobs=24):
     for i in range(0, len(prefixes), per):
         jobs.append({"kind": "exh", "symbols": symbols, "maxlen": maxlen, "prefixes": prefixes[i:i + per], "shorter": i == 0})
     return jobs
+
+
+# ---------------------------------------------------------------------------------------------
+# projects whose tasks carry `after="<expr>"` strings (several tasks sharing one string, self-matching declarers)
+# ---------------------------------------------------------------------------------------------
+
+STEMS = ["prep", "fit", "plot", "load", "clean", "sum", "Prep", "FIT"]
+TAILS = ["a", "b", "c", "x1", "x2", "raw", "all", "A"]
+
+
+def _after_names(rng, n):
+    names = []
+    while len(names) < n:
+        k = rng.random()
+        if k < 0.6:
+            nm = f"task_{rng.choice(STEMS)}_{rng.choice(TAILS)}"
+        elif k < 0.85:
+            nm = f"task_{rng.choice(STEMS)}_{rng.choice(STEMS)}"
+        else:
+            nm = f"task_{rng.choice(STEMS)}"
+        if nm.lower() not in {x.lower() for x in names}:
+            names.append(nm)
+    return names
+
+
+def _after_expr(rng, names):
+    """An expression over fragments of the task names (stems, tails, whole names), sometimes with operators."""
+    def atom():
+        nm = rng.choice(names)
+        parts = nm.split("_")[1:]
+        f = rng.choice(parts + [nm, "_".join(parts)])
+        r = rng.random()
+        return f.upper() if r < 0.15 else f.lower() if r < 0.4 else f
+    r = rng.random()
+    if r < 0.55:
+        return atom()
+    if r < 0.7:
+        return f"{atom()} or {atom()}"
+    if r < 0.8:
+        return f"{atom()} and not {atom()}"
+    if r < 0.9:
+        return f"not {atom()}"
+    if r < 0.95:
+        return f"({atom()} or {atom()}) and {atom()}"
+    return rng.choice(["", "prep and", "zzz", "a b"])
+
+
+def random_after_project(rng, e2e=False):
+    """Mostly projects whose after-relation is well-formed (judged on the bare names: the generator may use the evaluator it
+    generates for), some cyclic / malformed ones."""
+    from impl import expr_oracle
+    for _ in range(8):
+        tasks = _random_after_project(rng, e2e)
+        kind, preds = expr_oracle.after_preds(tasks)
+        if (kind == "ok" and any(preds)) or rng.random() < 0.12:
+            break
+    return tasks
+
+
+def _random_after_project(rng, e2e=False):
+    n = rng.randint(3, 6)
+    names = _after_names(rng, n)
+    tasks = [{"name": nm, "func": nm, "attrs": [], "markers": [], "after": None} for nm in names]
+    # one expression shared by 2-4 tasks; prefer that it matches at least one of its declarers
+    for _ in range(rng.choice([1, 1, 2])):
+        e = _after_expr(rng, names)
+        k = min(n, rng.randint(2, 4))
+        decl = rng.sample(range(n), k)
+        if rng.random() < 0.7:
+            # make a declarer self-matching: pick a task whose name contains the first identifier, if any
+            frag = e.split()[0].strip("()").lower() if e.split() else ""
+            hits = [i for i, nm in enumerate(names) if frag and frag in nm.lower()]
+            if hits and not set(hits) & set(decl):
+                decl[0] = rng.choice(hits)
+        for i in set(decl):
+            tasks[i]["after"] = e
+    # the others: a different expression, or none
+    for t in tasks:
+        if t["after"] is None and rng.random() < 0.35:
+            t["after"] = _after_expr(rng, names)
+    if not e2e:
+        for t in tasks:
+            if rng.random() < 0.2:
+                t["markers"] = [rng.choice(["slow", "prep", "fit"])]
+            if rng.random() < 0.1:
+                t["attrs"] = [rng.choice(["Prep_helper", "custom"])]
+            if rng.random() < 0.3:
+                t["name"] = f"src/task_mod.py::{t['name']}"
+    else:
+        for t in tasks:
+            t["try_first"] = t["after"] is not None and rng.random() < 0.6
+    return tasks
+
+
+def after_orders(rng, n, k):
+    import itertools
+    if n <= 3:
+        return [list(p) for p in itertools.permutations(range(n))][:k]
+    out = [list(range(n)), list(range(n - 1, -1, -1))]
+    while len(out) < k:
+        p = list(range(n))
+        rng.shuffle(p)
+        if p not in out:
+            out.append(p)
+    return out
+
+
+def after_cases(rng, n):
+    cases = []
+    # the canonical shape of the class first: b and c share the string, b matches it itself
+    cases.append({"tasks": [{"name": "task_prep_a", "attrs": [], "markers": [], "after": None},
+                            {"name": "task_prep_b", "attrs": [], "markers": [], "after": "prep"},
+                            {"name": "task_summary", "attrs": [], "markers": [], "after": "prep"}],
+                  "orders": [[0, 1, 2], [2, 1, 0], [1, 2, 0], [1, 0, 2], [2, 0, 1], [0, 2, 1]]})
+    for _ in range(n):
+        tasks = random_after_project(rng)
+        cases.append({"tasks": tasks, "orders": after_orders(rng, len(tasks), 6)})
+    return cases
+
+
+def after_e2e_cases(rng, n, nseeds):
+    cases = []
+    for k in range(n):
+        tasks = random_after_project(rng, e2e=True)
+        cases.append({"mod": f"p{k}", "tasks": tasks, "hashseeds": [rng.randrange(1, 4_000_000_000) for _ in range(nseeds)]})
+    return cases
 
 
 def corpus_strings():
